@@ -40,8 +40,18 @@
 // Exploration:
 //
 //	rep := vlib.ExploreJob(tests, vlib.SchedJob{Test: "h1", Bound: 2})            // in this process
-//	vlib.SchedMain(r, tests, plan)                                                // parent: shards jobs over processes
-//	                                                                              // (GOMAXPROCS=1 each), merges, reports
+//	vlib.SchedMain(r, tests, vlib.SchedPlan{Bounds: []vlib.SchedBound{            // parent: one process per job
+//	        {Bound: 0}, {Bound: 1}, {Bound: 2, Shards: 4},                        // (GOMAXPROCS=1 each, handed out in
+//	        {Bound: -1, Prune: true, Shards: 8, Only: []string{"h1"}}}})          // plan order), merges, reports
+//
+// Bound = maximum number of preemptions (switching away from a thread that could have continued); switches at
+// blocking operations and value choices are free. Bound -1 = every schedule. Shards = the depth-2 subtrees of the
+// choice tree are dealt round-robin to that many processes. Prune = state-key pruning: a global state (shim objects,
+// per-thread hashes of their own operation/result histories, virtual clock, the harness' ExtraKey) that was already
+// expanded with no more preemptions spent is not expanded again. This is sound only if ExtraKey covers all shared
+// memory the future (and the oracle's future verdicts) depends on and thread-local state is a function of the thread's
+// own operation history — argue it in the check's NOTES.md. SchedTest.Quiet (QuietPool|QuietAtomic|QuietUnlock) removes
+// scheduling points the harness declares irrelevant (see the constants).
 //
 // SchedMain implements the whole protocol of a check: determinism self-test (one recorded schedule per test replayed
 // twice), iterated bounds, 5x replay of every failing schedule before it is reported, vacuity guard (at least two
@@ -122,6 +132,7 @@ type Exec struct {
 	trace   []Step
 	keys    []schedKey
 	wantKey bool
+	keyCur  bool // bounded search: the running thread is part of the key (it decides what the next switch costs)
 
 	epoch    uint64
 	objs     []schedObj
@@ -410,7 +421,11 @@ func (x *Exec) schedule(from *Thread) {
 		}
 	}
 	if x.wantKey {
-		x.keys = append(x.keys, x.stateKey())
+		if i >= len(x.prefix) { // the explorer only branches (and therefore only looks at keys) beyond the replayed prefix
+			x.keys = append(x.keys, x.stateKey(curID))
+		} else {
+			x.keys = append(x.keys, schedKey{})
+		}
 	}
 	x.trace = append(x.trace, Step{Mask: mask, Chosen: next, Cur: curID})
 	if len(x.trace) > x.MaxSteps {
@@ -492,9 +507,12 @@ func wInt(b *strings.Builder, v int64) {
 	b.WriteByte(';')
 }
 
-func (x *Exec) stateKey() schedKey {
+func (x *Exec) stateKey(curID int32) schedKey {
 	b := &x.keyBuf
 	b.Reset()
+	if x.keyCur {
+		wInt(b, int64(curID))
+	}
 	for _, t := range x.threads {
 		wInt(b, int64(t.points))
 		b.Write(strconv.AppendUint(x.tmp[:0], t.hist, 36))
@@ -574,13 +592,14 @@ var (
 )
 
 // RunSchedule executes t once under the given choice prefix (default policy afterwards).
-func RunSchedule(t *SchedTest, prefix []int32, wantKey, paranoid bool) *ExecResult {
+// keyMode: 0 = no state keys, 1 = keys for an unbounded search, 2 = keys for a preemption-bounded search.
+func RunSchedule(t *SchedTest, prefix []int32, keyMode int, paranoid bool) *ExecResult {
 	if schedCur != nil {
 		schedFatal("nested executions")
 	}
 	schedEpoch++
 	x := &Exec{prefix: prefix, epoch: schedEpoch, endCh: schedEndCh, exitCh: schedExitCh,
-		wantKey: wantKey, MaxSteps: t.MaxSteps, paranoid: paranoid, horizon: t.Horizon, quiet: t.Quiet}
+		wantKey: keyMode > 0, keyCur: keyMode > 1, MaxSteps: t.MaxSteps, paranoid: paranoid, horizon: t.Horizon, quiet: t.Quiet}
 	if x.MaxSteps == 0 {
 		x.MaxSteps = 4000
 	}
